@@ -33,3 +33,42 @@ int fx1_clear_stale(char *dest, size_t dmax, const char *src) {        /* clears
 /* wrapper rule fixtures: two _chk functions with (dest, dmax, src, slen, destbos, srcbos) */
 int _fx1_copy_ok_chk(char *dest, size_t dmax, const char *src, size_t slen, size_t destbos, size_t srcbos) { (void)dest; (void)dmax; (void)src; (void)slen; return destbos > srcbos; }
 int _fx1_copy_swapped_chk(char *dest, size_t dmax, const char *src, size_t slen, size_t destbos, size_t srcbos) { (void)dest; (void)dmax; (void)src; (void)slen; return destbos > srcbos; }
+
+/* ---- (cursor, count) loops judged path by path (sa/budget.py) */
+static int fxb_width(unsigned c) { if (c == 0xdf) return 2; if (c == 0x149) return 3; return c > 0x40 && c < 0x5b; }
+int fxb_good(unsigned *dest, unsigned long dmax, const unsigned *src) {
+    while (*src && dmax > 0) {
+        int c;
+        if (dmax < 5) return 406;
+        c = fxb_width(*src);
+        if (c > 1) { __builtin_memcpy(dest, src, c * sizeof(unsigned)); dest += c; dmax -= c; }
+        else if (*src == 0xcc) { *dest++ = 0x69; *dest++ = 0x307; *dest++ = 0x300; dmax -= 3; }
+        else { *dest++ = *src; dmax--; }
+        src++;
+    }
+    if (!dmax) return 406;
+    *dest = 0;
+    return 0;
+}
+int fxb_no_room(unsigned *dest, unsigned long dmax, const unsigned *src) {
+    while (*src && dmax > 0) {
+        int c = fxb_width(*src);
+        if (c > 1) { __builtin_memcpy(dest, src, c * sizeof(unsigned)); dest += c; dmax -= c; }       /* up to 3 elements with dmax >= 1 */
+        else if (*src == 0xcc) { *dest++ = 0x69; *dest++ = 0x307; *dest++ = 0x300; dmax -= 3; }       /* 3 stores with dmax >= 1 */
+        else { *dest++ = *src; dmax--; }
+        src++;
+    }
+    if (!dmax) return 406;
+    *dest = 0;
+    return 0;
+}
+int fxb_double_dec(unsigned *dest, unsigned long dmax, const unsigned *src) {
+    while (*src && dmax > 0) {
+        if (dmax < 5) return 406;
+        if (*src == 0x3a3) { *dest++ = 0x3c2; dmax--; dmax--; }                                       /* count decreased twice for one element */
+        else { *dest++ = *src; dmax--; }
+        src++;
+    }
+    __builtin_memset(dest, 0, dmax * sizeof(unsigned));
+    return 0;
+}
